@@ -22,7 +22,7 @@ func init() {
 		for i := 0; i < n; i++ {
 			out = append(out, runConcAudit(work, i, genConc(seed, i)))
 		}
-		return out
+		return append(out, c06AuditFile(work)...)
 	}
 	commands["C09db"] = func(o Opts) { runDBProfile(o, profC09, nil) }
 	commands["C04db"] = func(o Opts) { runDBProfile(o, profC04, nil) }
